@@ -28,6 +28,15 @@ var Root = func() string {
 	return "/verif"
 }()
 
+// OutRoot is where evidence and replays are written (VERIF_OUT overrides it so
+// that developer runs against a scratch copy of ojg do not clobber the real files).
+var OutRoot = func() string {
+	if r := os.Getenv("VERIF_OUT"); r != "" {
+		return r
+	}
+	return Root
+}()
+
 // Finding is one line of known_findings.txt.
 type Finding struct {
 	Property string `json:"property"`
@@ -341,8 +350,8 @@ func ParentMain(id, tier string) int {
 			fmt.Printf("KNOWN-FINDING: property=%s sig=%s observed=%d %s (witness %s)\n", id, k.Sig, observed[i], k.What, k.Witness)
 		}
 	}
-	_ = os.MkdirAll(filepath.Join(Root, "replays"), 0o755)
-	if old, _ := filepath.Glob(filepath.Join(Root, "replays", id+"-*.json")); len(old) > 0 {
+	_ = os.MkdirAll(filepath.Join(OutRoot, "replays"), 0o755)
+	if old, _ := filepath.Glob(filepath.Join(OutRoot, "replays", id+"-*.json")); len(old) > 0 {
 		for _, f := range old {
 			_ = os.Remove(f) // replays of earlier runs of this property are stale
 		}
@@ -402,7 +411,7 @@ func tail(s string, n int) string {
 func writeReplay(ck *Check, id, tier string, f *Failure) string {
 	h := sha1.Sum([]byte(f.Sig))
 	name := fmt.Sprintf("%s-%s.json", id, hex.EncodeToString(h[:6]))
-	path := filepath.Join(Root, "replays", name)
+	path := filepath.Join(OutRoot, "replays", name)
 	reproduced := ""
 	if ck.Replay != nil && !strings.HasPrefix(f.Sig, "worker-fault") {
 		k := 0
@@ -486,8 +495,8 @@ func writeEvidence(ck *Check, id, tier string, m *Report, unlisted []string, nKn
 		ev["assumptions"] = []string{}
 	}
 	b, _ := json.MarshalIndent(ev, "", " ")
-	_ = os.MkdirAll(filepath.Join(Root, "evidence"), 0o755)
-	_ = os.WriteFile(filepath.Join(Root, "evidence", id+".json"), append(b, '\n'), 0o644)
+	_ = os.MkdirAll(filepath.Join(OutRoot, "evidence"), 0o755)
+	_ = os.WriteFile(filepath.Join(OutRoot, "evidence", id+".json"), append(b, '\n'), 0o644)
 }
 
 // ReplayMain re-executes a replay file; exit 1 if it still fails.
